@@ -566,7 +566,7 @@ const (
 // was obtained.
 //
 //verif:contract (*~/server/proxy.BaseProxy).handleUserTCPConnection
-//verif:props C01 C05
+//verif:props C01 C05 C11 C15
 func verif_handleUserTCPConnection(pxy *BaseProxy, userConn net.Conn) {
 	cfg := pxy.configurer.GetBaseConfig()
 	enc, comp := cfg.Transport.UseEncryption, cfg.Transport.UseCompression
